@@ -22,7 +22,7 @@ EXPLANATION = (
 MODS = ['t2grids', 't2data', 't2incons']
 
 
-def pair_rule(run, mods, owner_classes, floor):
+def pair_rule(run, mods, owner_classes, floor, only=None):
     run.rule('PAIR', 'a membership change of a by-name dictionary is matched by the same change of its '
              'partner list (and back-references) on every path of the same function, helpers summarised', floor=floor)
     prog = run.prog
@@ -30,6 +30,7 @@ def pair_rule(run, mods, owner_classes, floor):
     nfun = set()
     for fi, key, verdict, info in pa.verdicts(prog.all_functions(mods)):
         if key[1] not in owner_classes: continue
+        if only is not None and not only(fi, key[1]): continue
         nfun.add(fi.qual)
         d, l, b = PAIRS[key[1]][key[2]]
         k = '%s :: %s.%s/%s' % (fi.short, key[0], d, l)
@@ -50,7 +51,9 @@ def pair_rule(run, mods, owner_classes, floor):
 
 
 def rule_pair(run):
-    pair_rule(run, MODS, set(['t2grid', 't2data', 't2incon']), floor=30)
+    # the grid's own containers everywhere; the block-keyed dictionaries of t2data only where blocks are renamed
+    pair_rule(run, MODS, set(['t2grid', 't2data']), floor=30,
+              only=lambda fi, owner: owner == 't2grid' or fi.name == 'rename_blocks')
 
 
 REKEY_ANCHORS = ['t2grids.t2grid.rename_blocks', 't2grids.t2grid.reorder', 't2grids.t2grid.rename_rocktype',
